@@ -134,8 +134,13 @@ class BaseLoadedMessage(LoadedMessageInterface):
     def _get_subpart(self, section: Sequence[int] | None) -> MessageContent:
         if section:
             subpart = self.content
-            for i in section:
-                if subpart.body.has_nested:
+            for depth, i in enumerate(section):
+                if depth > 0 and subpart.is_rfc822 \
+                        and subpart.body.has_nested:
+                    # the numbers below a message/rfc822 part refer to the
+                    # parts of the message it encapsulates (RFC 3501 6.4.5)
+                    subpart = subpart.body.nested[0]
+                if subpart.body.has_nested and not subpart.is_rfc822:
                     subpart = subpart.body.nested[i - 1]
                 elif i == 1:
                     pass
